@@ -79,6 +79,27 @@ pub fn run(o: &Opts, deck: &str) -> String {
         let (pk, pb) = tied(&mut rng, k);
         out.line(&iso_line(pk, pb));
     }
+    // call sequences: the canonical form of b must not depend on what was asked before (the recogniser applied to a
+    // DIFFERENT deal of the same cards just before)
+    let ns = if o.thorough() { 200_000 } else { 20_000 };
+    for i in 0..ns {
+        let k = [3usize, 4, 5][i % 3];
+        let all = rng.cards(2 + k, DECK_MASK);
+        let pa = rng.cards(2, all);
+        let mut pb2 = rng.cards(2, all);
+        if pb2 == pa { pb2 = rng.cards(2, all); }
+        let r = catch(|| {
+            let a = Observation::from((Hand::from(pa), Hand::from(all & !pa)));
+            let b = Observation::from((Hand::from(pb2), Hand::from(all & !pb2)));
+            let fresh = Observation::from(Isomorphism::from(b));
+            let _ = Isomorphism::is_canonical(&a);
+            let after = Observation::from(Isomorphism::from(b));
+            let _ = Isomorphism::is_canonical(&a);
+            let recog = Isomorphism::is_canonical(&fresh);
+            format!("{} {} {}", o2s(&fresh), o2s(&after), recog as u8)
+        });
+        out.line(&format!("isoseq {} {} {} | {}", pa, pb2, all, r.unwrap_or("P P P P P".into())));
+    }
     let lines = out.finish();
     format!("{{\"lines\":{}}}", lines)
 }
